@@ -478,7 +478,8 @@ fn many_instances_leg(ctx: &Ctx, l: &mut Local, all_salts: &mut Vec<String>, all
     let strat = gen::gen_strategy(&mut Rng(1), &u, StratKind::AllLevels);
     let window = |h: &mut Harvest, at: u64| {
         for i in 0..64u64 {
-            let mut issuer = SDJWTIssuer::new(key.clone(), Some("HS256".to_string()));
+            // the signing algorithm (incl. the 384- and 512-bit HMACs) has no bearing on salts / digests
+            let mut issuer = SDJWTIssuer::new(key.clone(), Some((*["HS256", "HS384", "HS512"].get((i % 3) as usize).unwrap()).to_string()));
             if let Outcome::Ok(s) = api::issue(&mut issuer, &u, &strat, None, true, Fmt::Compact) {
                 harvest_one(&s, Fmt::Compact, h, &|| json!({"instances_created_before": at + i}));
             }
